@@ -3,16 +3,17 @@
 import sys, os
 sys.path.insert(0, os.path.dirname(os.path.abspath(__file__)))
 from common import *
-from wesym.contracts import ipfslog, orbit
+from wesym.contracts import ipfslog, orbit, seqchan
 import c03
 
 
 def main():
     t = tier()
     N = 4 if t == 'quick' else 7
-    chk = c03.root_check('C13', ['C13/zz_verif_c13.go', 'C13/zz_verif_c13b.go'], extra_installers=[orbit.install_relay])
+    chk = c03.root_check('C13', ['C13/zz_verif_c13.go', 'C13/zz_verif_c13b.go', 'C08/zz_verif_c08.go'], extra_installers=[seqchan.install, orbit.install_relay],
+                         extra_pkgs=[MOD + '/internal/queue', 'container/heap', 'container/list'])
     P = MOD + '.'
-    chk.load([P + 'VerifC13Range', P + 'VerifC13Iterate', P + 'VerifC13Witness', P + 'VerifC13Params', P + 'VerifC13Source'])
+    chk.load([P + 'VerifC13Range', P + 'VerifC13Iterate', P + 'VerifC13Witness', P + 'VerifC13Params', P + 'VerifC13Source', P + 'VerifC13MsgSource'])
     jobs = []
     for n in range(0, N + 1):
         jobs.append(Job(P + 'VerifC13Range', (n,)))
@@ -20,6 +21,8 @@ def main():
     jobs.append(Job(P + 'VerifC13Params', ()))
     for n in ((1, 2, 3) if t == 'quick' else (1, 2, 3, 4)):
         jobs.append(Job(P + 'VerifC13Source', (n,), cfg={'timeout_ms': 60000}))
+    for n in ((1, 2) if t == 'quick' else (1, 2, 3)):
+        jobs.append(Job(P + 'VerifC13MsgSource', (n,), cfg={'timeout_ms': 60000, 'dec_as_term': True}))
     jobs.append(Job(P + 'VerifC13Witness', (2,), witness=True))
     res = chk.run_jobs(jobs)
     finish(chk, res, t,
@@ -28,7 +31,7 @@ def main():
                        'Entry identifiers and the since/until identifiers are free opaque byte strings (pairwise distinct '
                        'entries); since/until range over nil, every entry id and an unknown id; reverse and the five '
                        'parameter flags are free. Every assertion is decided by the solver for all values on its path.',
-           bounds={'entries_n': '0..%d' % N, 'ids': 'opaque byte strings of any length >= 1', 'order_source': 'MetadataStore.ListEvents on logs of 1..3 (4) events under every arrival order (log contract)', 'outside': 'lists longer than the bound; MessageStore.ListEvents (same two lines, needs the message pipeline); the GroupMetadataList/GroupMessageList RPC relay; OrbitDB replication itself'},
+           bounds={'entries_n': '0..%d' % N, 'ids': 'opaque byte strings of any length >= 1', 'order_source': 'MetadataStore.ListEvents on logs of 1..3 (4) events under every arrival order (log contract)', 'message_store': 'MessageStore.ListEvents on logs of 1..2 (3) messages of one sender whose key is known, every arrival order', 'outside': 'lists longer than the bound; the GroupMetadataList/GroupMessageList RPC relay; OrbitDB replication itself'},
            assumptions=['log entries have pairwise distinct non-empty CIDs (content addressing)',
                         'cid.Cid.Bytes() is injective in the CID (contract)'],
            trusted=['go/ssa lowering (x/tools v0.50.0)', 'wesym interpreter', 'z3 5.1.0; final queries re-decided by cvc5 1.0 and z3 4.8.12'])
